@@ -12,6 +12,8 @@ This module knows nothing about PyPlate.
 """
 from __future__ import annotations
 
+import re
+
 import builtins
 import time
 from fractions import Fraction
@@ -691,9 +693,16 @@ class SymFloat(_real_float):
         return t
 
     def __format__(self, spec):
-        if spec != '':
-            raise Unsupported(f"format spec {spec!r} on a symbolic float")
-        return self._tag()
+        if spec == '':
+            return self._tag()
+        # fixed-point presentation: f"{x:.3f}" is the decimal string of x rounded to 3 digits (6 for a bare 'f'), and
+        # reading it back gives round(x, n) - the same rounding model as round() itself
+        m = re.fullmatch(r'(?:\.(\d+))?f', spec)
+        if m:
+            nd = int(m.group(1)) if m.group(1) is not None else 6
+            r = self.__round__(nd)
+            return r._tag() if isinstance(r, SymFloat) else format(r, spec)
+        raise Unsupported(f"format spec {spec!r} on a symbolic float")
 
     def __str__(self):
         return self._tag()
